@@ -8,26 +8,26 @@ Import ListNotations.
 Local Open Scope string_scope.
 Local Open Scope list_scope.
 
-(* One observation of a real Core, after New or after a real reloadConf:
+(* One observation of a real Core, after New or after a real reloadConf. Components are numbered by their position
+   in the generated table, guard atoms by their position in `all_atoms` (string literals are slow to parse):
    changed     the parameters whose value differs from the previous configuration (derived guard fields such as
                "Paths#atLeastOneRecordDeleteAfter" included), ptr_fresh the pointer-typed ones whose pointer differs;
    atoms_true  the guard atoms of the table that are true in the new configuration (evaluated by the driver);
    enabled     the components the new configuration enables - the driver's own reading of the documented meaning of
                the enable flags and encryption modes, not the table's;
-   ident       per component standing in Core the serial number of the instance (1 = created by New, k+1 = first seen
-               after reload number k); a component that is not listed is absent;
+   ident       per component (table order) 0 if absent, else the serial number of the instance standing in Core
+               (1 = standing there when the history starts, k+1 = first seen after reload number k);
    not_held    (component, configuration field): the running component does NOT hold the new configuration's value,
-               among all `Key: currentConf.Field` of the constructor literals, read from the component itself
+               among all `Key: currentConf.Field` of the constructor literals (`bound`), read from the component itself
                (for AuthInternalUsers also: a user of the new list is not admitted, or a removed one still is);
-   stale       (component, held component): the reference it holds is NOT the instance standing in Core now.
-   A history also lists `skipped`: the (component, field / held component) pairs the driver cannot compare. *)
-Inductive step := Step (changed ptr_fresh : list string) (atoms_true : list (string * string))
-                       (enabled : list string) (ident : list (string * Z))
+   stale       (component, held component): the reference it holds (`refbound`) is NOT the instance standing in Core now. *)
+Inductive step := Step (changed ptr_fresh : list string) (atoms_true : list Z)
+                       (enabled : list Z) (ident : list Z)
                        (not_held stale : list (string * string)).
 
 Inductive case :=
 | Reload (changed : list string) (ptr_fresh : list string) (observed : list (string * bool))
-| History (skipped : list (string * string)) (init : step) (steps : list step).
+| History (init : step) (steps : list step).
 
 Definition old_conf : conf := fun _ => {| val := 0; addr := 1 |}.
 Definition new_conf (changed ptr_fresh : list string) : conf :=
@@ -37,41 +37,79 @@ Definition new_conf (changed ptr_fresh : list string) : conf :=
 
 Fixpoint lookupZ (c : string) (l : list (string * Z)) : Z :=
   match l with [] => 0%Z | (k, v) :: t => if String.eqb k c then v else lookupZ c t end.
-Fixpoint lookupB (c : string) (l : list (string * bool)) : bool :=
-  match l with [] => false | (k, v) :: t => if String.eqb k c then v else lookupB c t end.
 
 Definition conf0 : conf := fun _ => {| val := 0; addr := 0 |}.
 (* every changed parameter takes a value it never had before *)
 Definition bump (c : conf) (changed ptr_fresh : list string) (k : Z) : conf :=
   fun f => {| val := if mem f changed then k else val (c f); addr := if mem f ptr_fresh then k else addr (c f) |}.
 
-(* the oracle for the guard atoms of one configuration: what the driver evaluated on it *)
 Definition pmem (p : string * string) (l : list (string * string)) : bool :=
   existsb (fun q => String.eqb (fst p) (fst q) && String.eqb (snd p) (snd q)) l.
-Definition atomv_of (atoms_true : list (string * string)) : string -> string -> Z -> bool :=
-  fun f t _ => pmem (f, t) atoms_true.
 
-Definition agree (skipped : list (string * string)) (cur : conf) (s : state) (ident : list (string * Z))
-                 (not_held stale : list (string * string)) : bool :=
-  forallb (fun r =>
-    let c := comp r in
-    Z.eqb (gen_of (s c)) (lookupZ c ident) &&
-    match s c with
-    | None => true
-    | Some i =>
-        forallb (fun f => pmem (c, f) skipped ||
-                          Bool.eqb (Z.eqb (hval i f) (val (cur f))) (negb (pmem (c, f) not_held))) (uses r) &&
-        forallb (fun d => pmem (c, d) skipped ||
-                          Bool.eqb (Z.eqb (href i d) (gen_of (s d))) (negb (pmem (c, d) stale))) (refs r)
-    end) core_table.
+Fixpoint gatoms (e : gexpr) : list (string * string) :=
+  match e with
+  | GTrue => []
+  | GAtom f t => [(f, t)]
+  | GAnd a b | GOr a b => gatoms a ++ gatoms b
+  | GNot a => gatoms a
+  end.
+Fixpoint dedupe (l acc : list (string * string)) : list (string * string) :=
+  match l with [] => rev acc | p :: t => if pmem p acc then dedupe t acc else dedupe t (p :: acc) end.
+Definition all_atoms : list (string * string) := dedupe (flat_map (fun r => gatoms (gexp r)) core_table) [].
+Definition comp_names : list string := map comp core_table.
 
-Fixpoint replay (skipped : list (string * string)) (k : Z) (cur : conf) (s : state) (steps : list step) : bool :=
+(* the oracle for the guard atoms of one configuration: what the driver evaluated on it *)
+Definition atomv_of (atoms_true : list Z) : string -> string -> Z -> bool :=
+  let ts := flat_map (fun k => match nth_error all_atoms (Z.to_nat k) with Some p => [p] | None => [] end) atoms_true in
+  fun f t _ => pmem (f, t) ts.
+Definition idents (ident : list Z) : list (string * Z) := combine comp_names ident.
+Definition names_of (ixs : list Z) : list string :=
+  flat_map (fun k => match nth_error comp_names (Z.to_nat k) with Some c => [c] | None => [] end) ixs.
+Definition well_formed (st : step) : bool :=
+  match st with
+  | Step _ _ atoms en ident _ _ =>
+      Nat.eqb (List.length ident) (List.length comp_names) &&
+      forallb (fun k => (0 <=? k)%Z && (k <? Z.of_nat (List.length all_atoms))%Z) atoms &&
+      forallb (fun k => (0 <=? k)%Z && (k <? Z.of_nat (List.length comp_names))%Z) en
+  end.
+
+Definition agree (cur : conf) (s : state) (st : step) : bool :=
+  match st with
+  | Step _ _ _ _ ident not_held stale =>
+      well_formed st &&
+      forallb (fun r =>
+        let c := comp r in
+        Z.eqb (gen_of (s c)) (lookupZ c (idents ident)) &&
+        match s c with
+        | None => true
+        | Some i =>
+            forallb (fun f => Bool.eqb (Z.eqb (hval i f) (val (cur f))) (negb (pmem (c, f) not_held))) (bound r) &&
+            forallb (fun d => Bool.eqb (Z.eqb (href i d) (gen_of (s d))) (negb (pmem (c, d) stale))) (refbound r)
+        end) core_table
+  end.
+
+(* evaluation only: a state is a function; tabulate it (and the instances' functions) once per step, so that later
+   steps do not re-run the earlier reloads each time they look a component up *)
+Definition freeze_inst (r : row) (i : inst) : inst :=
+  let hv := map (fun f => (f, hval i f)) (uses r) in
+  let hr := map (fun d => (d, href i d)) (refs r) in
+  {| gen := gen i; hval := fun f => lookupZ f hv; href := fun d => lookupZ d hr |}.
+Fixpoint lookupI (c : string) (l : list (string * option inst)) : option inst :=
+  match l with [] => None | (k, v) :: t => if String.eqb k c then v else lookupI c t end.
+Definition freeze (s : state) : state :=
+  let l := map (fun r => (comp r, match s (comp r) with Some i => Some (freeze_inst r i) | None => None end)) core_table in
+  fun c => lookupI c l.
+
+Fixpoint replay (k : Z) (cur : conf) (s : state) (steps : list step) : bool :=
   match steps with
   | [] => true
-  | Step ch pf atoms _ ident not_held stale :: rest =>
-      let new := bump cur ch pf k in
-      let s' := reload (atomv_of atoms) (k + 1) core_table pointer_fields cur new s in
-      agree skipped new s' ident not_held stale && replay skipped (k + 1) new s' rest
+  | st :: rest =>
+      match st with
+      | Step ch pf atoms _ _ _ _ =>
+          let new := bump cur ch pf k in
+          let s' := freeze (reload (atomv_of atoms) (k + 1) core_table pointer_fields cur new s) in
+          agree new s' st && replay (k + 1) new s' rest
+      end
   end.
 
 Definition mismatch (c : case) : bool :=
@@ -79,9 +117,12 @@ Definition mismatch (c : case) : bool :=
   | Reload changed ptr_fresh observed =>
       negb (forallb (fun cb => Bool.eqb (closes_eval core_table pointer_fields old_conf (new_conf changed ptr_fresh) (fst cb)) (snd cb))
                     observed)
-  | History skipped (Step _ _ atoms0 _ ident0 not_held0 stale0) steps =>
-      let s0 := start (atomv_of atoms0) core_table conf0 in
-      negb (agree skipped conf0 s0 ident0 not_held0 stale0 && replay skipped 1 conf0 s0 steps)
+  | History init steps =>
+      match init with
+      | Step _ _ atoms0 _ _ _ _ =>
+          let s0 := freeze (start (atomv_of atoms0) core_table conf0) in
+          negb (agree conf0 s0 init && replay 1 conf0 s0 steps)
+      end
   end.
 
 (* The property on the observation, using only the construction side of the table (which parameters and which
@@ -112,8 +153,9 @@ Definition obs_ok (enabled : list string) (ident : list (string * Z)) (not_held 
 
 Definition step_ok (prev : list (string * Z)) (st : step) : bool :=
   match st with
-  | Step ch _ _ enabled ident not_held stale =>
-      obs_ok enabled ident not_held stale &&
+  | Step ch _ _ enabled ident0 not_held stale =>
+      let ident := idents ident0 in
+      obs_ok (names_of enabled) ident not_held stale &&
       forallb (fun r =>
         let c := comp r in
         let g := lookupZ c ident in
@@ -131,13 +173,13 @@ Definition step_ok (prev : list (string * Z)) (st : step) : bool :=
 Fixpoint steps_ok (prev : list (string * Z)) (steps : list step) : bool :=
   match steps with
   | [] => true
-  | st :: rest => step_ok prev st && steps_ok (match st with Step _ _ _ _ ident _ _ => ident end) rest
+  | st :: rest => step_ok prev st && steps_ok (match st with Step _ _ _ _ ident _ _ => idents ident end) rest
   end.
 
 Definition spec_fail (c : case) : bool :=
   match c with
-  | History _ (Step _ _ _ en0 ident0 not_held0 stale0) steps =>
-      negb (obs_ok en0 ident0 not_held0 stale0 && steps_ok ident0 steps)
+  | History (Step _ _ _ en0 ident0 not_held0 stale0) steps =>
+      negb (obs_ok (names_of en0) (idents ident0) not_held0 stale0 && steps_ok (idents ident0) steps)
   | Reload changed _ observed =>
       negb (forallb (fun cb =>
         let '(c, rec) := cb in
